@@ -1,5 +1,5 @@
 import OdxVerif.Props.C05Nested
-import OdxVerif.Proofs.CompTrunc2Mono
+import OdxVerif.Proofs.CompTrunc2Local
 /-! # C05, nested tier, second part (task W26) — "nothing is invented" as a theorem about the WHOLE decoder model
     `Proofs/CompTrunc2.lean` instruments the model's decoder with a ghost log: every call of `extractCore` — the one place
     where `DecodeState.extract_atomic_value` takes bytes out of the message — records the byte range it requests
@@ -267,5 +267,143 @@ theorem c5Em_log : (decodeMessageL none c5Em [1, 2, 3, 4] false).2 =
     [⟨4, 6, false⟩, ⟨3, 4, false⟩, ⟨3, 4, true⟩, ⟨1, 3, false⟩, ⟨0, 1, false⟩, ⟨0, 1, true⟩] := by decide +kernel
 example : decodeMessage none c5Em [1, 2, 3, 4] false = .error .decode :=
   C05_truncated_rejected_all false none c5Em _ ⟨4, 6, false⟩ (by rw [c5Em_log]; decide) rfl (by decide)
+
+/-! ### what a request means -/
+
+/-- **Locality of a request** (`Proofs/CompTrunc2Local.lean`): the value or error of the atomic extraction is a function of the
+    requested bytes alone — two messages that agree on `start … stop-1` (and contain them) give the same result. -/
+theorem C05_request_local (bl : Nat) (bt : BaseType) (enc : Option Enc) (hl : Bool) (s : DecState) (msg' : Bytes) (b : Bool)
+    (hfit : s.readEnd bl ≤ s.msg.length) (hfit' : s.readEnd bl ≤ msg'.length)
+    (hsame : (s.msg.drop s.cursorByte).take ((bl + s.cursorBit + 7) / 8) = (msg'.drop s.cursorByte).take ((bl + s.cursorBit + 7) / 8)) :
+    resVal (extractCore bl bt enc hl s b) = resVal (extractCore bl bt enc hl { s with msg := msg' } b) :=
+  extractCore_local bl bt enc hl s msg' b hfit hfit' hsame
+
+/-- instance: a 16-bit object at byte 1 of `22 0b0c 99` and of `77 0b0c` (other bytes around it, another length): same value -/
+example : resVal (extractCore 16 .uint32 none true { msg := [0x22, 0x0b, 0x0c, 0x99], cursorByte := 1 } true) =
+    resVal (extractCore 16 .uint32 none true { msg := [0x77, 0x0b, 0x0c], cursorByte := 1 } true) :=
+  C05_request_local 16 .uint32 none true { msg := [0x22, 0x0b, 0x0c, 0x99], cursorByte := 1 } [0x77, 0x0b, 0x0c] true
+    (by decide) (by decide) (by decide)
+
+/-! ### W19's `Reads` for the leaf kinds of `Described2` other than standard-length objects (W19, "NOT proved" (3))
+    `C05_truncated_leaf_described` covered a cut-off standard-length leaf behind a described prefix.  The same for a cut-off
+    MIN-MAX object (its MIN-LENGTH bytes), LEADING-LENGTH object (its length prefix), MATCHING-REQUEST-PARAM and RESERVED
+    parameter behind a `Described2` prefix (structures with BYTE-SIZE, all four fields, multiplexers, MIN-MAX / LEADING-LENGTH
+    leaves …).  BYTE-SIZE structures and the fields as the cut-off *container* are `Reads.ofStructParam` / the field rules of W19. -/
+
+/-- a cut-off parameter `p` (any `Reads` of it) behind a `Described2` prefix that the message carries -/
+theorem C05_truncated_param_described2 (pre : List Comp) (mid : Bool) (hd : ∀ g ∈ pre, Described2 g mid) (p : Param)
+    (post : List Param) (msg : Bytes) (k : Nat) (hk : modelFuel - 2 - pre.length = k + 1) (hlen : pre.length + 2 ≤ modelFuel)
+    (hneed : ∀ g ∈ pre, g.need + pre.length + 2 ≤ modelFuel)
+    (hfit : (Comps.pair pre).fits { msg := msg }) (hpre : Comps.decPre pre { msg := msg }) (dr : DecState) (bl : Nat)
+    (hr : Reads true k (.param p) ((Comps.pair pre).dec { msg := msg }).2 dr bl) (hshort : msg.length < dr.readEnd bl) :
+    decodeMessage none (Comps.toParams pre ++ p :: post) msg true = .error .decode := by
+  refine C05_truncated_rejected_described2 pre mid hd _ msg hlen hneed hfit hpre dr bl ?_ hshort
+  rw [hk]
+  exact Reads.paramsHead _ _ _ _ dr _ hr
+
+/-- MIN-MAX object (VALUE parameter, no BIT-POSITION): fewer than MIN-LENGTH bytes left where the decoder reaches it -/
+theorem C05_truncated_minmax_described2 (pre : List Comp) (mid : Bool) (hd : ∀ g ∈ pre, Described2 g mid)
+    (name : String) (bp : Option Nat) (bt : BaseType) (enc : Option Enc) (hl : Bool) (mn : Nat) (mx : Option Nat) (t : Term)
+    (phys : BaseType) (cm : CCompu) (dv : Option PVal) (post : List Param) (msg : Bytes)
+    (hlen : pre.length + 5 ≤ modelFuel) (hneed : ∀ g ∈ pre, g.need + pre.length + 2 ≤ modelFuel)
+    (hfit : (Comps.pair pre).fits { msg := msg }) (hpre : Comps.decPre pre { msg := msg })
+    (hshort : msg.length < ((((Comps.pair pre).dec { msg := msg }).2).atParam bp none).readEnd (8 * mn)) :
+    decodeMessage none (Comps.toParams pre ++ .mk name bp none (.value (.simple (.minmax bt enc hl mn mx t) phys cm) dv) :: post) msg true
+      = .error .decode := by
+  obtain ⟨k, hk⟩ : ∃ k, modelFuel - 2 - pre.length = (k + 1 + 1) + 1 := ⟨modelFuel - 5 - pre.length, by omega⟩
+  refine C05_truncated_param_described2 pre mid hd _ post msg _ hk (by omega) hneed hfit hpre _ _ ?_ hshort
+  exact .value _ _ _ _ _ _ _ _ _ (.simple _ _ _ _ _ _ _ (.minmax _ _ _ _ _ _ _ _ rfl))
+
+/-- LEADING-LENGTH object: its length prefix (`bl ≥ 1` bits) is cut off -/
+theorem C05_truncated_leading_described2 (pre : List Comp) (mid : Bool) (hd : ∀ g ∈ pre, Described2 g mid)
+    (name : String) (bp bit : Option Nat) (bt : BaseType) (enc : Option Enc) (hl : Bool) (bl : Nat) (hbl : bl ≠ 0)
+    (phys : BaseType) (cm : CCompu) (dv : Option PVal) (post : List Param) (msg : Bytes)
+    (hlen : pre.length + 5 ≤ modelFuel) (hneed : ∀ g ∈ pre, g.need + pre.length + 2 ≤ modelFuel)
+    (hfit : (Comps.pair pre).fits { msg := msg }) (hpre : Comps.decPre pre { msg := msg })
+    (hshort : msg.length < ((((Comps.pair pre).dec { msg := msg }).2).atParam bp bit).readEnd bl) :
+    decodeMessage none (Comps.toParams pre ++ .mk name bp bit (.value (.simple (.leading bt enc hl bl) phys cm) dv) :: post) msg true
+      = .error .decode := by
+  obtain ⟨k, hk⟩ : ∃ k, modelFuel - 2 - pre.length = (k + 1 + 1) + 1 := ⟨modelFuel - 5 - pre.length, by omega⟩
+  refine C05_truncated_param_described2 pre mid hd _ post msg _ hk (by omega) hneed hfit hpre _ _ ?_ hshort
+  exact .value _ _ _ _ _ _ _ _ _ (.simple _ _ _ _ _ _ _ (.leadingLen _ _ _ _ _ _ ⟨hbl, fun h => (by cases h), fun h => (by cases h)⟩))
+
+/-- MATCHING-REQUEST-PARAM of `n ≥ 1` bytes -/
+theorem C05_truncated_matching_described2 (pre : List Comp) (mid : Bool) (hd : ∀ g ∈ pre, Described2 g mid)
+    (name : String) (bp bit : Option Nat) (reqPos n : Nat) (hn : n ≠ 0) (post : List Param) (msg : Bytes)
+    (hlen : pre.length + 4 ≤ modelFuel) (hneed : ∀ g ∈ pre, g.need + pre.length + 2 ≤ modelFuel)
+    (hfit : (Comps.pair pre).fits { msg := msg }) (hpre : Comps.decPre pre { msg := msg })
+    (hshort : msg.length < ((((Comps.pair pre).dec { msg := msg }).2).atParam bp bit).readEnd (8 * n)) :
+    decodeMessage none (Comps.toParams pre ++ .mk name bp bit (.matchingReq reqPos n) :: post) msg true = .error .decode := by
+  obtain ⟨k, hk⟩ : ∃ k, modelFuel - 2 - pre.length = (k + 1) + 1 := ⟨modelFuel - 4 - pre.length, by omega⟩
+  refine C05_truncated_param_described2 pre mid hd _ post msg _ hk (by omega) hneed hfit hpre _ _ ?_ hshort
+  exact .matchingReq _ _ _ _ _ _ _ hn
+
+/-- RESERVED parameter of `bl ≥ 1` bits -/
+theorem C05_truncated_reserved_described2 (pre : List Comp) (mid : Bool) (hd : ∀ g ∈ pre, Described2 g mid)
+    (name : String) (bp bit : Option Nat) (bl : Nat) (hbl : bl ≠ 0) (post : List Param) (msg : Bytes)
+    (hlen : pre.length + 4 ≤ modelFuel) (hneed : ∀ g ∈ pre, g.need + pre.length + 2 ≤ modelFuel)
+    (hfit : (Comps.pair pre).fits { msg := msg }) (hpre : Comps.decPre pre { msg := msg })
+    (hshort : msg.length < ((((Comps.pair pre).dec { msg := msg }).2).atParam bp bit).readEnd bl) :
+    decodeMessage none (Comps.toParams pre ++ .mk name bp bit (.reserved bl) :: post) msg true = .error .decode := by
+  obtain ⟨k, hk⟩ : ∃ k, modelFuel - 2 - pre.length = (k + 1) + 1 := ⟨modelFuel - 4 - pre.length, by omega⟩
+  refine C05_truncated_param_described2 pre mid hd _ post msg _ hk (by omega) hneed hfit hpre _ _ ?_ hshort
+  exact .reserved _ _ _ _ _ _ hbl
+
+/-! ### non-vacuity of the `Described2` corollaries: W19's nested prefix `c5Pre` (constant + dynamic-length field of two items, each
+    a byte and a structure with a static field), `2E | 02 | A1 01 02 | A2 03 04 | 7F` — one byte behind the prefix -/
+
+theorem c5Pre_described2 : ∀ g ∈ c5Pre, Described2 g false := fun g hg => (c5Pre_described g hg).to2
+
+theorem c5Pre_need : ∀ g ∈ c5Pre, g.need + c5Pre.length + 2 ≤ modelFuel := by
+  intro g hg
+  simp only [c5Pre, List.mem_cons, List.mem_nil_iff, or_false] at hg
+  rcases hg with rfl | rfl <;> decide
+
+set_option maxRecDepth 4000 in
+/-- a MIN-MAX byte field with MIN-LENGTH 2 behind the prefix: one byte is there -/
+theorem C05_truncated_minmax_described2_example :
+    decodeMessage none (Comps.toParams c5Pre ++
+      [.mk "m" none none (.value (.simple (.minmax .bytefield none true 2 (some 4) .zero) .bytefield .identical) none)]) c5Msg true
+      = .error .decode := by
+  refine C05_truncated_minmax_described2 c5Pre false c5Pre_described2 "m" none .bytefield none true 2 (some 4) .zero .bytefield .identical
+    none [] c5Msg (by decide) c5Pre_need c5Pre_fits c5Pre_decPre ?_
+  simp only [c5Pre, Comps.pair, Pair.map, Pair.seq, Pair.nil, Comp.ofObjConst, Pair.ofObj, exDf, Comp.ofValue, Pair.atPos, DComp.dynLenField,
+    Pair.inOrigin, dynInnerC, Pair.guard, dynBodyC, List.map, Pair.list, dynItemC, Pair.advancing, DComp.struct, exDfItem, u8, Comp.ofObjValue, exInner,
+    DComp.staticField, staticItemC, Pair.padTo, DecState.atParam, DecState.readEnd]
+  decide +kernel
+
+set_option maxRecDepth 4000 in
+/-- a MATCHING-REQUEST-PARAM of two bytes behind the prefix -/
+theorem C05_truncated_matching_described2_example :
+    decodeMessage none (Comps.toParams c5Pre ++ [.mk "r" none none (.matchingReq 0 2)]) c5Msg true = .error .decode := by
+  refine C05_truncated_matching_described2 c5Pre false c5Pre_described2 "r" none none 0 2 (by decide) [] c5Msg (by decide) c5Pre_need
+    c5Pre_fits c5Pre_decPre ?_
+  simp only [c5Pre, Comps.pair, Pair.map, Pair.seq, Pair.nil, Comp.ofObjConst, Pair.ofObj, exDf, Comp.ofValue, Pair.atPos, DComp.dynLenField,
+    Pair.inOrigin, dynInnerC, Pair.guard, dynBodyC, List.map, Pair.list, dynItemC, Pair.advancing, DComp.struct, exDfItem, u8, Comp.ofObjValue, exInner,
+    DComp.staticField, staticItemC, Pair.padTo, DecState.atParam, DecState.readEnd]
+  decide +kernel
+
+set_option maxRecDepth 4000 in
+/-- a LEADING-LENGTH object with a 16-bit length prefix behind the prefix -/
+theorem C05_truncated_leading_described2_example :
+    decodeMessage none (Comps.toParams c5Pre ++
+      [.mk "l" none none (.value (.simple (.leading .bytefield none true 16) .bytefield .identical) none)]) c5Msg true = .error .decode := by
+  refine C05_truncated_leading_described2 c5Pre false c5Pre_described2 "l" none none .bytefield none true 16 (by decide) .bytefield .identical
+    none [] c5Msg (by decide) c5Pre_need c5Pre_fits c5Pre_decPre ?_
+  simp only [c5Pre, Comps.pair, Pair.map, Pair.seq, Pair.nil, Comp.ofObjConst, Pair.ofObj, exDf, Comp.ofValue, Pair.atPos, DComp.dynLenField,
+    Pair.inOrigin, dynInnerC, Pair.guard, dynBodyC, List.map, Pair.list, dynItemC, Pair.advancing, DComp.struct, exDfItem, u8, Comp.ofObjValue, exInner,
+    DComp.staticField, staticItemC, Pair.padTo, DecState.atParam, DecState.readEnd]
+  decide +kernel
+
+set_option maxRecDepth 4000 in
+/-- a RESERVED parameter of 12 bits behind the prefix -/
+theorem C05_truncated_reserved_described2_example :
+    decodeMessage none (Comps.toParams c5Pre ++ [.mk "x" none none (.reserved 12)]) c5Msg true = .error .decode := by
+  refine C05_truncated_reserved_described2 c5Pre false c5Pre_described2 "x" none none 12 (by decide) [] c5Msg (by decide) c5Pre_need
+    c5Pre_fits c5Pre_decPre ?_
+  simp only [c5Pre, Comps.pair, Pair.map, Pair.seq, Pair.nil, Comp.ofObjConst, Pair.ofObj, exDf, Comp.ofValue, Pair.atPos, DComp.dynLenField,
+    Pair.inOrigin, dynInnerC, Pair.guard, dynBodyC, List.map, Pair.list, dynItemC, Pair.advancing, DComp.struct, exDfItem, u8, Comp.ofObjValue, exInner,
+    DComp.staticField, staticItemC, Pair.padTo, DecState.atParam, DecState.readEnd]
+  decide +kernel
 
 end OdxVerif.Codec
